@@ -68,6 +68,9 @@ namespace Givaro {
         Array0 (size_t  s, const T& t);
         //@}
 
+        //! Copy cstor : physical copy, as operator=
+        Array0 (const Self_t& p) : _cnt(0), _size(0), _psz(0), _d(0) { this->copy(p); }
+
         //! Recopy cstor : logical copy
         Array0 (const Self_t& p, givNoCopy);
 
